@@ -69,10 +69,27 @@ def cem_models(ex, L):
     def std(ex_, x, axis=0):
         return STD(x.a, x.n)
 
+    def nan_extreme(kind):
+        def f(ex_, x, axis=None):
+            """nanmax / nanmin: the extreme over the non-NaN entries (a finite value whenever one exists)"""
+            ex_.assumptions_used.add("jnp.nanmax / nanmin(x): maximum / minimum over the entries that are not NaN")
+            if not (isinstance(x, Arr) and x.a.eq(L.val.a)):
+                raise Unsupported("nanmax of an unknown array")
+            n = x.n
+            m = ex_.fresh(kind, REAL)
+            i = z3.Int("i!nm")
+            fin = lambda t: z3.And(0 <= t, t < n, z3.Not(z3.Select(L.nan.a, t)))
+            cmp = (lambda a, b: a >= b) if kind == "nanmax" else (lambda a, b: a <= b)
+            ex_.assume(z3.ForAll([i], z3.Implies(fin(i), cmp(m, z3.Select(x.a, i)))))
+            w = ex_.fresh(kind + "_at", INT)
+            ex_.assume(z3.Implies(z3.Exists([i], fin(i)), z3.And(fin(w), m == z3.Select(x.a, w))))
+            return m
+        return f
+
     jnp = ex.lib.ns["jax.numpy"]
     orig_where = jnp.entries["where"]
-    saved = {k: jnp.entries.get(k) for k in ("where", "argsort", "mean", "std", "argmin")}
-    jnp.entries.update(where=where, argsort=argsort, mean=mean, std=std, argmin=argmin)
+    saved = {k: jnp.entries.get(k) for k in ("where", "argsort", "mean", "std", "argmin", "nanmax", "nanmin")}
+    jnp.entries.update(where=where, argsort=argsort, mean=mean, std=std, argmin=argmin, nanmax=nan_extreme("nanmax"), nanmin=nan_extreme("nanmin"))
     ex.opts["isnan"] = isnan
     return saved
 
@@ -147,17 +164,31 @@ class CemRanking(Unit):
 
 
 class GaussianSample(Unit):
-    name = "gaussian_samples.sample"
-    target = CEM + "::gaussian_samples.sample"
+    """the whole sampler (not its inner helper, whatever it is called): every leaf of every sampled candidate lies within that leaf's bounds,
+    and every leaf gets its own key"""
+    name = "gaussian_samples"
+    target = CEM + "::gaussian_samples"
     props = ("C18",)
 
     def run(self, ctx):
         ex = ctx.ex
-        ex.lib.ns["jax.random"].entries["normal"] = lambda ex_, rng, shape=None: ex_.fresh("noise", REAL)
-        umin, umax = z3.Real("u_min"), z3.Real("u_max")
-        ctx.require(umin <= umax)
-        r = ctx.call(args=[z3.Const("rng", Leaf), z3.Real("mean"), z3.Real("stdev"), umin, umax])
-        ctx.ensure("C18 every sampled candidate lies within [u_min, u_max]", z3.And(toz(r) >= umin, toz(r) <= umax))
+        keys_used = []
+        ex.lib.ns["jax.random"].entries["normal"] = lambda ex_, rng, shape=None: (keys_used.append(rng), ex_.fresh("noise", REAL))[1]
+        leaves = ("a", "b")
+        tree = lambda tag: {"x": z3.Real(f"{tag}.a"), "sub": {"y": z3.Real(f"{tag}.b"), "none": None}}
+        umin, umax, mean, std = tree("u_min"), tree("u_max"), tree("mean"), tree("stdev")
+        for l in leaves:
+            ctx.require(z3.Real(f"u_min.{l}") <= z3.Real(f"u_max.{l}"))
+        solver = Rec("CEMSolver", dict(u_min=umin, u_max=umax, evolution_smoothing=z3.Real("smoothing"), num_samples=z3.Int("num_samples"), elite_portion=z3.Real("elite_portion")), module=CEM, frozen=True)
+        state = Rec("CEMState", dict(mean=mean, stdev=std, bestsofar=tree("best"), bestsofar_loss=z3.Real("best_loss")), module=CEM, frozen=True)
+        ex.opts["leaf_attr"] = lambda ex_, o, attr: () if attr == "shape" else None
+        r = ctx.call(args=[solver, state, z3.Const("rng", Leaf)])
+        ok = isinstance(r, dict) and set(r) == {"x", "sub"} and isinstance(r["sub"], dict) and r["sub"].get("none") is None
+        ctx.ensure("the samples have the structure of the mean", z3.BoolVal(ok))
+        if ok:
+            ctx.ensure("C18 every sampled candidate lies within [u_min, u_max], leaf by leaf",
+                       z3.And(toz(r["x"]) >= z3.Real("u_min.a"), toz(r["x"]) <= z3.Real("u_max.a"), toz(r["sub"]["y"]) >= z3.Real("u_min.b"), toz(r["sub"]["y"]) <= z3.Real("u_max.b")))
+            ctx.ensure("every leaf is sampled with its own key", z3.BoolVal(len(keys_used) == 2 and not z3.eq(toz(keys_used[0]), toz(keys_used[1]))))
 
 
 class EvoStep(Unit):
@@ -171,6 +202,8 @@ class EvoStep(Unit):
         n = z3.Int("popsize")
         ctx.require(n >= 1)
         L = Losses(n)
+        jf = z3.Int("j!fin")
+        ctx.require(z3.ForAll([jf], z3.Implies(z3.And(0 <= jf, jf < n, z3.Not(z3.Select(L.nan.a, jf))), z3.Select(L.val.a, jf) < INF)))   # finite losses are below +inf
         saved = cem_models(ex, L)
         told = []
         X = z3.Const("population", Leaf)
@@ -190,8 +223,12 @@ class EvoStep(Unit):
             j = z3.Int("j!e")
             ctx.ensure("C18 the optimiser is told about exactly the candidates it asked for, with the state returned by ask and the solver's (clipping) parameters",
                        z3.And(toz(aw.same(x, X)), toz(aw.same(st, z3.Const("state_after_ask", Leaf))), toz(aw.same(p, z3.Const("strategy_params", Leaf)))))
-            ctx.ensure("C18 NaN losses reach the optimiser as +inf, all other losses unchanged",
-                       z3.And(z3.BoolVal(isinstance(l, Arr)), z3.ForAll([j], z3.Implies(z3.And(0 <= j, j < n), z3.Select(l.a, j) == z3.If(z3.Select(L.nan.a, j), INF, z3.Select(L.val.a, j))))) if isinstance(l, Arr) else z3.BoolVal(False))
+            i2 = z3.Int("i!e")
+            ctx.ensure("C18 the optimiser sees every finite loss unchanged and every NaN loss as a value STRICTLY above every finite loss of the generation (so no ranking can prefer a NaN candidate, ties included)",
+                       z3.And(z3.BoolVal(isinstance(l, Arr)), l.n == n,
+                              z3.ForAll([j], z3.Implies(z3.And(0 <= j, j < n, z3.Not(z3.Select(L.nan.a, j))), z3.Select(l.a, j) == z3.Select(L.val.a, j))),
+                              z3.ForAll([j, i2], z3.Implies(z3.And(0 <= j, j < n, 0 <= i2, i2 < n, z3.Select(L.nan.a, j), z3.Not(z3.Select(L.nan.a, i2))), z3.Select(l.a, j) > z3.Select(L.val.a, i2))))
+                       if isinstance(l, Arr) else z3.BoolVal(False))
         ok = isinstance(ret, tuple) and isinstance(ret[0], tuple)
         ctx.ensure("returns ((new state, logger), raw losses)", z3.And(z3.BoolVal(ok), toz(aw.same(ret[0][0], z3.Const("state_after_tell", Leaf))) if ok else z3.BoolVal(False)))
 
